@@ -8,6 +8,6 @@ PROPS = {
         assumptions=[],
         level_text="todo",
         level_note="todo",
-        tests=[dict(unit="c02node", test="TestVerifC08Loop", quick=160, thorough=4000, env={"VERIF_PENDING_KNOWN": "C08-double-fault-orphan,C08-idle-eni-kept,C08-greedy-demand-oscillation,C08-lost-write-no-resync,C08-rollback-record-lacks-mode,C08-rdma-idle-oscillation,C08-dual-stack-trim-oscillation,C02-v4-not-on-v6-eni"})],
+        tests=[dict(unit="c02node", test="TestVerifC08Loop", quick=2400, thorough=60000, env={"VERIF_PENDING_KNOWN": "C08-double-fault-orphan,C08-idle-eni-kept,C08-greedy-demand-oscillation,C08-eflo-partial-key-collision,C08-negative-slot-count,C08-sync-drops-detached-eni,C08-sync-merge-nil-map,C08-lost-write-no-resync,C08-rollback-record-lacks-mode,C08-rdma-idle-oscillation,C08-dual-stack-imbalance,C02-v4-not-on-v6-eni"})],
     ),
 }
